@@ -406,6 +406,20 @@ where
             return Err(SnapshotLoadError::InvalidSZXFile.into());
         }
 
+        // Minimal sizes of the fixed parts of known blocks
+        let min_size = match id_str.as_str() {
+            "Z80R" => 37,
+            "SPCR" => 8,
+            "AY\0\0" => 18,
+            "KEYB" => 5,
+            "AMXM" => 7,
+            "RAMP" => 3,
+            _ => 0,
+        };
+        if block_data.len() < min_size {
+            return Err(SnapshotLoadError::InvalidSZXFile.into());
+        }
+
         match id_str.as_str() {
             "CRTR" => {
                 process_crtr_block(emulator, &block_data)?;
